@@ -289,6 +289,43 @@ def oracle(case, obs):
     return fails[0]
 
 
+def link_clash_paths(case):
+    """nodes present in file and runtime tree whose replacement fails INSIDE `_overwrite_single_node` on the clean tree: a child
+    the file node has is called like an object of the body the runtime node writes (the old children are linked into the new
+    group by name) — the hypothesis `compatKids` of the C09 theorems, and part of C18-K1"""
+    out = []
+    def walk(f, rt, path):
+        fk = {k["name"]: k for k in f["kids"]}
+        for k in rt["kids"]:
+            if k["name"] in fk:
+                fnode = fk[k["name"]]
+                body = gen.reserved_names(k) - {"metadatabundle"}
+                if body & {x["name"] for x in fnode["kids"]}:
+                    out.append(("R0",) + tuple(path) + (k["name"],))
+                walk(fnode, k, path + [k["name"]])
+    walk(case["trees"]["F"], case["trees"]["R"], [])
+    return out
+
+
+def explained_by_link_clash(case, fail):
+    clash = link_clash_paths(case)
+    if not clash:
+        return False
+    def below(p):
+        p = tuple(p)
+        return any(p[:len(c)] == c for c in clash)
+    for kind, paths in fail["damage"]:
+        if kind in ("lost", "unreadable") and not all(below(p) for p in paths):
+            return False
+        if kind == "file_unreadable":
+            return False
+        if kind == "scratch":
+            want = {"/".join(c[:-1] + ("_tmp_" + c[-1],)) for c in clash}
+            if not all(sp in want for sp in paths):
+                return False
+    return True
+
+
 def known_match(case, fail, finding):
     if finding["id"] == "C18-K1":
         # append-over is not failure-atomic for the nodes it replaces: `_overwrite_single_node` parks the old group under
@@ -299,7 +336,9 @@ def known_match(case, fail, finding):
         # does not reach.
         if not fail.get("append_over"):
             return False
-        if fail.get("natural") in ("renamed_node_over", "collision_with_body", "collision_with_body_over") and any(kind in ("lost", "unreadable", "scratch", "file_unreadable") for kind, _ in fail["damage"]):
+        if fail.get("natural") in ("renamed_node_over", "collision_with_body", "collision_with_body_over") and \
+                any(kind in ("lost", "unreadable", "scratch", "file_unreadable") for kind, _ in fail["damage"]) and \
+                not explained_by_link_clash(case, fail):
             # a renamed node is refused BEFORE the old group is parked, and a NEW child named like an object of its parent's
             # body is refused when its group is created (no node is parked at that moment): nothing can be lost and no scratch group can exist
             # (nodes replaced earlier in the same save have their new content: that part is this finding)
